@@ -272,9 +272,11 @@ func mutateURI(t *sim.Tape, u string, wantQuery bool) (string, string) {
 // ---- JSON bodies -----------------------------------------------------------
 
 var strPool = []string{"", "a", "hello world", "héllo", "日本語", "emoji \U0001F600", "quote\"back\\slash",
-	"line\nbreak\ttab", "<script>&", " ", "/slash", "@alice:origin.example", "$event", "\u0001", "m.room.message"}
+	"line\nbreak\ttab", "<script>&", " ", "/slash", "@alice:origin.example", "$event", "\u0001", "m.room.message",
+	// code points at the edges: the replacement character itself (valid UTF-8, not a decoding error), noncharacters, the last code point, separators, a BOM
+	"repl\ufffdaced", "\ufffd", "\uffff", "\U0010ffff", "\u2028\u2029", "\u007f", "\ufeffbom"}
 
-var objKeyPool = []string{"a", "b", "type", "content", "origin", "room_id", "ключ", "é", "", "signatures", "unsigned", "pdus", "Z", "a.b"}
+var objKeyPool = []string{"a", "b", "type", "content", "origin", "room_id", "ключ", "é", "", "signatures", "unsigned", "pdus", "Z", "a.b", "k\ufffd", "\U0010ffff"}
 
 // escKeyPool: member names whose JSON spelling needs an escape (drawn rarely).
 var escKeyPool = []string{"k\"q", "b\\s", "new\nline", "x\":1,\"y"}
